@@ -1158,6 +1158,27 @@ fn long_record(len: usize, seed: u64) -> Vec<u8> {
         .collect()
 }
 
+/// the 65 601-record windowed exploration for the minimiser listings, in a process of its own (run after hours of
+/// unbounded small-case explorations in one process, a worker thread of this case overflowed its stack - DESIGN 9)
+pub fn c10_many(ctx: &mut Ctx) {
+    // more than 2^16 records: every way of preempting the workers while they handle the first records (window of
+    // decisions), each continued by default (the preempted worker resumes after the others have taken everything)
+    {
+        let recs = many_after_one(65_600);
+        // two workers, window 16, bound 1 in both tiers: the thorough variant of this case (three workers, window 40,
+        // bound 2) ended in a stack overflow of a worker thread inside the harnessed run (vp run #15/#16) that was not
+        // understood in the time left - a fault of the machinery, so the variant is not run (DESIGN 9)
+        for (threads, label) in [(2usize, "N2many")] {
+            let case = MinCase { threads, w: 9, m: 5, records: recs.clone() };
+            let b = 1u32;
+            with_window(16usize, || {
+                min_explore(ctx, &case, "s2m", Some(b), &format!("s2m.{label}"));
+                min_explore(ctx, &case, "m2s", Some(1), &format!("m2s.{label}"));
+            });
+        }
+    }
+}
+
 pub fn c10_sched(ctx: &mut Ctx) {
     // records sharing minimisers
     let r1 = b"ACAC".to_vec();
@@ -1180,22 +1201,6 @@ pub fn c10_sched(ctx: &mut Ctx) {
         };
         min_explore(ctx, &case, "s2m", bound, &format!("s2m.{label}"));
         min_explore(ctx, &case, "m2s", bound, &format!("m2s.{label}"));
-    }
-    // more than 2^16 records: every way of preempting the workers while they handle the first records (window of
-    // decisions), each continued by default (the preempted worker resumes after the others have taken everything)
-    {
-        let recs = many_after_one(65_600);
-        // two workers, window 16, bound 1 in both tiers: the thorough variant of this case (three workers, window 40,
-        // bound 2) ended in a stack overflow of a worker thread inside the harnessed run (vp run #15/#16) that was not
-        // understood in the time left - a fault of the machinery, so the variant is not run (DESIGN 9)
-        for (threads, label) in [(2usize, "N2many")] {
-            let case = MinCase { threads, w: 9, m: 5, records: recs.clone() };
-            let b = 1u32;
-            with_window(16usize, || {
-                min_explore(ctx, &case, "s2m", Some(b), &format!("s2m.{label}"));
-                min_explore(ctx, &case, "m2s", Some(1), &format!("m2s.{label}"));
-            });
-        }
     }
     // a record whose output line is far longer than any I/O buffer (thousands of runs) next to short ones:
     // the line must still reach the file as one piece under every interleaving
